@@ -3,6 +3,7 @@ package props
 import (
 	"fmt"
 	"go/ast"
+	"go/token"
 	"go/types"
 	"strings"
 
@@ -111,11 +112,13 @@ func refersTo2(info *types.Info, n ast.Node, o types.Object) bool {
 func c12(p *core.Prog, res *core.Result) {
 	res.Explanation = "C12 (structural clauses): M1 signal transparency — every step that may stand between a mark and a jump, and every lookup of the embedded driver, forwards a signal traveler (or a lookup referring to one) as the first thing it does with it, on the same channel as ordinary results, and does nothing else with it; " +
 		"M2 counters live on copies — set, increment and the emitting jump write only into travelers whose current element and marks are private copies (BaseTraveler.Copy must copy both); " +
-		"M3 the variables the jump queue shares between its goroutines are guarded (shared with C17)."
+		"M4 inside Jump's signal branch every send to the jump queue is guarded by a comparison of the signal's destination with the jump's own mark (the mark counts returns of its own signals); M5 the second stage of every lookup step either tests IsSignal on the lookup's traveler first or applies only traveler constructors that copy the Signal field; M3 the variables the jump queue shares between its goroutines are guarded (shared with C17)."
 	res.NotDecided = []string{"the termination-detection protocol of JumpMark (signal counting) under all interleavings — a model-checking question over five goroutines", "the position of a forwarded signal relative to rows buffered inside fan-out steps (both, aggregate)", "that no traveler is lost or duplicated while the loop shuts down"}
 	res.Rule("M1", "signals are forwarded first and untouched by every loop-body step and lookup", 25)
 	res.Rule("M2", "set/increment/emit write only into private copies", 3)
 	res.Rule("M3", "jump queue: shared locals guarded", 1)
+	res.Rule("M4", "a jump queues only the signals of its own mark", 1)
+	res.Rule("M5", "steps that build travelers from lookup results keep the signal", 4)
 
 	proc := p.Iface("gdbi", "Processor")
 	if proc == nil {
@@ -237,6 +240,12 @@ func c12(p *core.Prog, res *core.Result) {
 			}
 		}
 	}
+	// M4: the jump forwards to its own queue only the signals addressed to its mark
+	if jf := p.Func("engine/logic", "Jump.Process"); jf != nil {
+		c12jumpSignals(p, res, jf, "M4")
+	} else {
+		res.Fail("engine/logic.Jump.Process not found")
+	}
 	// M2
 	fresh := map[string]travelerFreshness{}
 	for _, name := range []string{"AddCurrent", "AddMark", "Copy"} {
@@ -245,6 +254,16 @@ func c12(p *core.Prog, res *core.Result) {
 		}
 	}
 	c01writes(p, res, fresh, "M2", []string{"ValueSet", "ValueIncrement"})
+	// M5: second stage of lookup steps
+	for _, impl := range p.Implementers(proc) {
+		rel := core.RelPkg(impl.Obj().Pkg().Path())
+		if rel != "engine/core" || !constructed[impl.Obj()] {
+			continue
+		}
+		if fi := p.Method(impl, "Process"); fi != nil && fi.Decl.Body != nil {
+			c12lookupStage(p, res, fi, fresh, "M5")
+		}
+	}
 	if jf := p.Func("engine/logic", "Jump.Process"); jf != nil {
 		info := jf.Pkg.TypesInfo
 		res.Fn(core.FuncKey(jf.Obj))
@@ -282,4 +301,124 @@ func c12(p *core.Prog, res *core.Result) {
 	if qf := p.Func("engine/queue", "New"); qf != nil {
 		c17captured(p, res, qf, "M3")
 	}
+}
+
+
+// c12jumpSignals: in the IsSignal branch of Jump.Process, sends to the jump
+// queue are nested in `if <signal>.Dest == <jump>.Mark`.
+func c12jumpSignals(p *core.Prog, res *core.Result, fi *core.FuncInfo, rule string) {
+	info := fi.Pkg.TypesInfo
+	fkey := core.FuncKey(fi.Obj)
+	res.Fn(fkey)
+	n := 0
+	var walk func(node ast.Node, inSignal bool, guarded bool)
+	walk = func(node ast.Node, inSignal bool, guarded bool) {
+		ast.Inspect(node, func(x ast.Node) bool {
+			if x == node {
+				return true
+			}
+			switch y := x.(type) {
+			case *ast.IfStmt:
+				sig, g := inSignal, guarded
+				isSig := false
+				for _, c := range core.CallsIn(y.Cond) {
+					if sel, ok := c.Fun.(*ast.SelectorExpr); ok && sel.Sel.Name == "IsSignal" {
+						isSig = true
+					}
+				}
+				if isSig {
+					if _, neg := ast.Unparen(y.Cond).(*ast.UnaryExpr); !neg {
+						sig = true
+					}
+				}
+				if be, ok := ast.Unparen(y.Cond).(*ast.BinaryExpr); ok && be.Op == token.EQL {
+					l, r := types.ExprString(be.X), types.ExprString(be.Y)
+					if (strings.HasSuffix(l, ".Dest") && strings.HasSuffix(r, ".Mark")) || (strings.HasSuffix(r, ".Dest") && strings.HasSuffix(l, ".Mark")) {
+						g = true
+					}
+				}
+				walk(y.Body, sig, g)
+				if y.Else != nil {
+					walk(y.Else, inSignal, guarded)
+				}
+				return false
+			case *ast.SendStmt:
+				if inSignal {
+					if t := info.TypeOf(y.Chan); t != nil && strings.Contains(types.ExprString(y.Chan), "jumpers") {
+						n++
+						key := fmt.Sprintf("%s|signal→queue#%d", fkey, n)
+						if guarded {
+							res.OK(rule, key, p.Pos(y.Pos()), "queued only when the signal's destination is this jump's mark")
+						} else {
+							res.Bad(rule, key, p.Pos(y.Pos()), fmt.Sprintf("%s queues a signal at %s without comparing its destination with the jump's own mark: with two loops in one traversal the signals of the first loop circulate in the second, are counted as returns of the second mark's signal, and that mark closes while travelers are still in the cycle (rows lost)", fkey, p.Pos(y.Pos())))
+						}
+					}
+				}
+			}
+			return true
+		})
+	}
+	walk(fi.Decl.Body, false, false)
+	if n == 0 {
+		res.Unres(rule, fkey+"|signal→queue", p.Pos(fi.Decl.Pos()), "no send of a signal to the jump queue found")
+	}
+}
+
+
+// c12lookupStage: loops over a channel of gdbi.ElementLookup (the results of a
+// driver lookup).  The traveler of a result (its Ref) may be a signal; the loop
+// must test IsSignal first or build the outgoing traveler only with
+// constructors that copy the Signal field.
+func c12lookupStage(p *core.Prog, res *core.Result, fi *core.FuncInfo, fresh map[string]travelerFreshness, rule string) int {
+	info := fi.Pkg.TypesInfo
+	fkey := core.FuncKey(fi.Obj)
+	n := 0
+	ast.Inspect(fi.Decl.Body, func(x ast.Node) bool {
+		rs, ok := x.(*ast.RangeStmt)
+		if !ok {
+			return true
+		}
+		ct, ok := info.TypeOf(rs.X).Underlying().(*types.Chan)
+		if !ok {
+			return true
+		}
+		nn, ok := types.Unalias(ct.Elem()).(*types.Named)
+		if !ok || nn.Obj().Name() != "ElementLookup" {
+			return true
+		}
+		n++
+		res.Fn(fkey)
+		key := fmt.Sprintf("%s|lookup results#%d", fkey, n)
+		testsSignal := false
+		var lossy []string
+		ast.Inspect(rs.Body, func(y ast.Node) bool {
+			c, ok := y.(*ast.CallExpr)
+			if !ok {
+				return true
+			}
+			sel, ok := c.Fun.(*ast.SelectorExpr)
+			if !ok {
+				return true
+			}
+			switch sel.Sel.Name {
+			case "IsSignal":
+				testsSignal = true
+			case "AddCurrent", "AddMark", "Copy":
+				if tf, ok := fresh[sel.Sel.Name]; ok && !tf.SignalKept {
+					lossy = append(lossy, fmt.Sprintf("%s at %s", sel.Sel.Name, p.Pos(c.Pos())))
+				}
+			}
+			return true
+		})
+		switch {
+		case testsSignal:
+			res.OK(rule, key, p.Pos(rs.Pos()), "tests IsSignal on the result's traveler")
+		case len(lossy) == 0:
+			res.OK(rule, key, p.Pos(rs.Pos()), "builds the outgoing traveler only with constructors that copy the Signal field")
+		default:
+			res.Bad(rule, key, p.Pos(rs.Pos()), fmt.Sprintf("%s: the results of the lookup include the loop's signal travelers; the loop at %s neither tests IsSignal nor preserves the signal (%s does not copy the Signal field of gdbi.BaseTraveler): a signal passing this step becomes an ordinary null row, the mark never sees it return, and the traversal does not terminate", fkey, p.Pos(rs.Pos()), strings.Join(lossy, ", ")))
+		}
+		return true
+	})
+	return n
 }
